@@ -202,6 +202,18 @@ pub fn run(cli: &Cli, rep: &Report) {
             cases.push(Case { dir: Dir::In { how: RefEnc::XzBlocks { preset: 6, check: 10, block: 65536 } }, opts: o, input: input.clone() });
         }
     }
+    // dictionary sizes the one-byte LZIP header field / the XZ LZMA2 property cannot represent exactly, with matches at
+    // (nearly) the full distance: the header must announce at least what the encoder used, or the reference rejects it
+    for dict in [4800u32, 5000, 70_000, 100_000] {
+        let d = dict as usize;
+        let o = Opts { dict, ..Opts::small() };
+        for back in [1usize, 10, 100] {
+            let input = Input::Shape(vec![Seg::R(d - back), Seg::D(d - back, 300), Seg::C(50), Seg::D(d - back, 40)]);
+            cases.push(Case { dir: Dir::Out { cont: Container::Lzip { member: None }, ops: vec![] }, opts: o, input: input.clone() });
+            cases.push(Case { dir: Dir::Out { cont: Container::Xz { check: 1, block: None, filters: vec![] }, ops: vec![] }, opts: o, input: input.clone() });
+            cases.push(Case { dir: Dir::Out { cont: Container::LzmaHdrMarker, ops: vec![] }, opts: o, input });
+        }
+    }
     // the real executables with their own BCJ filter
     let fl = files();
     for (name, bytes) in &fl {
